@@ -25,7 +25,34 @@ IDENT_POOL = ["QWidget", "QLabel", "QAction", "QMenu", "QVBoxLayout", "QGridLayo
 LIT_POOL = ["0", "1", "-1", "2147483647", "2147483648", "4294967296", "9223372036854775807", "9223372036854775808", "1.5", "1e999", "0x10",
             "\"\"", "\"x\"", "\"#fff\"", "\"#ggg\"", "\"red\"", "\"%1\"", "\"\\u{10FFFF}\"", "\"\\0\"", "65535", "65536", "70000"]
 
-ODD = [
+def _switch_comment_shapes():
+    """switch statements with comments at switch-body level (between, before and after clauses), default in every position."""
+    out = []
+    for ncase in (0, 1, 2, 3):
+        for dpos in [None] + list(range(ncase + 1)):
+            for pattern in ("before-each", "after-each", "only-first", "only-last", "double"):
+                clauses = ["case %d: return \"c%d\";" % (i, i) for i in range(ncase)]
+                if dpos is not None:
+                    clauses.insert(dpos, "default: return \"d\";")
+                parts = []
+                for i, c in enumerate(clauses):
+                    if pattern == "before-each" or (pattern == "only-first" and i == 0):
+                        parts.append("// note %d" % i)
+                    if pattern == "double":
+                        parts += ["/* a */", "// b"]
+                    parts.append(c)
+                    if pattern == "after-each" or (pattern == "only-last" and i == len(clauses) - 1):
+                        parts.append("/* after %d */" % i)
+                if not clauses:
+                    parts = ["// nothing here"]
+                body = "\n            ".join(parts)
+                out.append("QWidget { QSpinBox { id: sp } windowTitle: {\n        switch (sp.value) {\n            %s\n        }\n        return \"e\";\n    }\n"
+                           "    onWindowTitleChanged: {\n        switch (sp.value) {\n            %s\n        }\n    } }"
+                           % (body, body.replace('return "', 'console.log("').replace('";', '"); break;')))
+    return out
+
+
+ODD = _switch_comment_shapes() + [
     # semantically odd but syntactically valid documents aimed at expect/unwrap/assert sites
     "QWidget { QMenu { actions: [menuAction()] } }",
     "QWidget { QMenu { id: m; actions: [this.menuAction(), m.menuAction()] } }",
@@ -261,37 +288,81 @@ def run(tier, seed, replay=None):
                 v.violation("cli-exit-%s" % st, "qmluic generate-ui %s exited with status %s: %s" % (" ".join(extra), st, p.stderr.decode("utf-8", "replace")[-300:]),
                             {"source": src, "kind": kind, "args": extra, "stderr": p.stderr.decode("utf-8", "replace")[-2000:]})
 
-    # ---- the native parser under valgrind memcheck (thorough)
+    # ---- documents that live next to component files (the directory path of the tool): odd component relations
+    PROJECTS = [
+        {"Loop.qml": "Loop {}", "Main.qml": "QWidget { Loop {} }"},
+        {"Ping.qml": "Pong {}", "Pong.qml": "Ping {}", "Main.qml": "QWidget { QVBoxLayout { Ping { toolTip: \"x\" } Pong {} } }"},
+        {"A.qml": "B {}", "B.qml": "C {}", "C.qml": "A {}", "Main.qml": "A { C { id: c } windowTitle: c.windowTitle }"},
+        {"Main.qml": "Main {}"},
+        {"Main.qml": "QWidget { Main {} }"},
+        {"Deep.qml": "Deeper {}", "Deeper.qml": "Deepest {}", "Deepest.qml": "NoSuchBase {}", "Main.qml": "QWidget { Deep { enabled: false } }"},
+        {"Lay.qml": "QVBoxLayout {}", "Act.qml": "QAction {}", "Main.qml": "Lay { Act {} Lay { Act { id: a } } }"},
+        {"W.qml": "QWidget { W {} }", "Main.qml": "QWidget { W {} }"},
+        {"Bad.qml": "QWidget { {{{ ", "Main.qml": "QWidget { Bad {} }"},
+        {"Empty.qml": "", "Main.qml": "QWidget { Empty {} }"},
+        {"lower.qml": "QWidget {}", "Main.qml": "QWidget { lower {} }"},
+        {"X.qml": "QWidget {}", "x.qml": "QLabel {}", "Main.qml": "QWidget { X {} }"},
+    ]
+    proj_dir = common.workdir("c07proj")
+    for k, files in enumerate(PROJECTS):
+        d = os.path.join(proj_dir, "q%d" % k)
+        os.makedirs(d)
+        for fn, body in files.items():
+            with open(os.path.join(d, fn), "w") as f:
+                f.write(("import qmluic.QtWidgets\n" if body else "") + body + "\n")
+        for src in sorted(files):
+            for extra in ([], ["--no-dynamic-binding"]):
+                try:
+                    p = subprocess.run([common.CLI, "generate-ui", "--foreign-types", common.METATYPES] + extra + [src], cwd=d, capture_output=True,
+                                       timeout=300, env=env, preexec_fn=common._limit_cpu(common.CPU_BUDGET_S))
+                    st = p.returncode
+                except subprocess.TimeoutExpired:
+                    v.inconc("CLI wall-clock watchdog (component project %d)" % k)
+                    continue
+                cli_status[st] = cli_status.get(st, 0) + 1
+                kinds["component-project"] = kinds.get("component-project", 0) + 1
+                if st not in (0, 1):
+                    sig = "cpu-budget" if st in (-24, -9) else "cli-exit-%s" % st
+                    v.violation(sig, "qmluic generate-ui %s %s in a directory of odd components ended with status %s%s: %s"
+                                % (" ".join(extra), src, st, " (CPU budget)" if sig == "cpu-budget" else "", p.stderr.decode("utf-8", "replace")[-300:]),
+                                {"files": files, "source_argument": src, "args": extra, "stderr": p.stderr.decode("utf-8", "replace")[-2000:]})
+
+    # ---- the native parser and the whole library under valgrind memcheck (thorough)
+    # The harness binary runs under valgrind in a few shards (start-up - loading the type information - costs ~15 s under
+    # valgrind and is paid once per shard, not once per document).
     vg = 0
     if tier == "thorough":
+        import json as _json
         vg_dir = common.workdir("c07vg")
-        picks = [c for c in corpus if c[0] in ("mutated", "soup", "truncated", "soup-in-binding")]
+        slow = {int(j[1:]) for j in out.cpu_violations}
+        picks = [(i, c) for i, c in enumerate(corpus) if c[0] in ("mutated", "soup", "truncated", "soup-in-binding", "odd") and i not in slow]
         rng.shuffle(picks)
-        files = []
-        for i, (kind, src) in enumerate(picks[:2000]):
-            if "\x00" in src:
-                continue
-            fn = os.path.join(vg_dir, "D%d.qml" % i)
-            with open(fn, "w", encoding="utf-8", errors="surrogatepass") as f:
-                f.write(src)
-            files.append("D%d.qml" % i)
-        for k in range(0, len(files), 250):
-            p = subprocess.run(["valgrind", "-q", "--error-exitcode=95", "--leak-check=no", common.CLI, "generate-ui", "--foreign-types",
-                                common.METATYPES] + files[k:k + 1], cwd=vg_dir, capture_output=True, timeout=3600, env=env)
-            # one invocation per batch head only checks start-up; run the batch file by file in one process is not possible
-            # (the tool stops at the first rejected file), so each file gets its own run below
+        picks = picks[:4000]
+        nsh = common.NCPU
         from concurrent.futures import ThreadPoolExecutor
 
-        def one(fn):
-            p = subprocess.run(["valgrind", "-q", "--error-exitcode=95", "--leak-check=no", common.CLI, "generate-ui", "--foreign-types",
-                                common.METATYPES, "--foreign-types", common.VF_TYPES, fn], cwd=vg_dir, capture_output=True, timeout=1200, env=env)
-            return fn, p.returncode, p.stderr.decode("utf-8", "replace")
-        with ThreadPoolExecutor(max_workers=common.NCPU) as ex:
-            for fn, st, err in ex.map(one, files):
-                vg += 1
-                if st == 95:
-                    v.violation("memcheck", "valgrind memcheck reports an error while translating %s: %s" % (fn, err.strip().splitlines()[0][:200]),
-                                {"source": open(os.path.join(vg_dir, fn), encoding="utf-8", errors="surrogatepass").read(), "stderr": err[-4000:]})
+        def shard(k):
+            mine = picks[k::nsh]
+            jf, of = os.path.join(vg_dir, "s%d.jobs" % k), os.path.join(vg_dir, "s%d.out" % k)
+            with open(jf, "w") as f:
+                for i, (kind, src) in mine:
+                    f.write(_json.dumps({"id": "j%d" % i, "source": src, "modes": ["generate", "omit"], "want": []}) + "\n")
+            cmd = ["valgrind", "-q", "--error-exitcode=95", "--leak-check=no", common.QVH, "translate", "--job-cpu-ms", "900000",
+                   "--types"] + common.type_paths() + ["--jobs", jf, "--out", of]
+            try:
+                p = subprocess.run(cmd, capture_output=True, timeout=7200)
+                return k, len(mine), p.returncode, p.stderr.decode("utf-8", "replace")
+            except subprocess.TimeoutExpired:
+                return k, len(mine), None, "wall-clock watchdog"
+        with ThreadPoolExecutor(max_workers=nsh) as ex:
+            for k, n, st, err in ex.map(shard, range(nsh)):
+                if st == 0:
+                    vg += n
+                elif st == 95 or "== Invalid" in err or "uninitialised" in err:
+                    v.violation("memcheck", "valgrind memcheck reports an error in shard %d (%d documents): %s" % (k, n, err.strip().splitlines()[0][:200]),
+                                {"shard_jobs": os.path.join(vg_dir, "s%d.jobs" % k), "stderr": err[-6000:]})
+                else:
+                    v.inconc("valgrind shard %d ended with %r: %s" % (k, st, err[-200:]))
     v.assumptions = ["termination restated as bounded progress: every translation within %.0f s CPU (observed max %.1f ms)"
                      % (common.CPU_BUDGET_S, max_cpu),
                      "library entry points are called in all three modes on every text (also on texts with syntax errors, which the CLI "
